@@ -66,6 +66,8 @@ def run(ctx):
     ctx.coverage["rule"] = ("typed random programs of the shared language run on the real interpreter, the real compiler+VM "
                             "and the Lean specification semantics; non-trivial = distinct program with output or a fatal outcome")
     ctx.coverage["traces_validated_against_impl"] = ctx.evaluations
+    if ctx.evaluations < 0.7 * n:
+        ctx.broken.append(f"generator drift: only {ctx.evaluations} of {n} generated programs were accepted and inside the model")
     if ctx.broken and not ctx.violations:
         ctx.violation({"kind": "broken-tie", "broken": ctx.broken[:10], "log": st.get("log", "")[-3000:]},
                       "proof obligation or model/code correspondence no longer checks: " + "; ".join(ctx.broken[:3]), no_input=True)
